@@ -41,6 +41,7 @@ import FwdVerif.Lemmas.C03
 import FwdVerif.Lemmas.C03Indep
 import FwdVerif.Lemmas.C03Legs
 import FwdVerif.Lemmas.C03Abort
+import FwdVerif.Lemmas.C03Copy
 
 namespace FwdVerif
 namespace C03
@@ -1551,6 +1552,177 @@ theorem c03_upgrade_close_option_pre_repair_witness :
     runReq exUpCfg .connectOnly true true exUpSteps = run exUpCfg exUpSteps :=
   ⟨⟨_, rfl, by decide, by decide, by decide, by decide, by decide, by decide, by decide⟩,
    ⟨_, rfl, by decide, by decide⟩, by decide⟩
+
+/-! ## N. The last bytes and the end of a stream in one `Read`
+
+`io.Reader` lets a `Read` return `n > 0` bytes together with `io.EOF`; the copy loop of a tunnel direction —
+`io.CopyBuffer`'s own, or the `ReadFrom` / `WriteTo` of a leg it delegates to — has to write them before it
+acts on the error.  `copyLoop ord rs` is the loop over what the source's `Read` calls return (`ReadRes`),
+`handedOver rs` every byte the source handed over in the calls the loop gets to make. -/
+
+/-- a client that sends 5 bytes in two reads, the second one arriving with the end of the stream (TLS 1.2:
+    final record and close_notify in one segment) -/
+def exReads : List ReadRes := [.data [1, 2, 3], .dataEof [4, 5]]
+
+/-- EVERY BYTE RETURNED IS DELIVERED, ALSO THOSE RETURNED TOGETHER WITH `io.EOF`: for every sequence of read
+    results, the loop that processes the bytes before the error writes exactly the concatenation of all bytes
+    the source handed over, in order — in particular `pre ++ [dataEof bs]` delivers `bs` after everything
+    before —, it returns iff a call reported an error, and cleanly iff that error was `io.EOF` -/
+theorem c03_copy_delivers_bytes_returned_with_eof (rs : List ReadRes) :
+    (copyLoop .bytesFirst rs).written = handedOver rs ∧
+    ((copyLoop .bytesFirst rs).returned = true ↔ ∃ r ∈ rs, r.ends = true) ∧
+    (∀ (pre : List Bytes) (bs : Bytes),
+      copyLoop .bytesFirst (pre.map .data ++ [.dataEof bs]) =
+        { written := pre.flatten ++ bs, returned := true, clean := true }) := by
+  refine ⟨?_, ?_, ?_⟩
+  · induction rs with
+    | nil => rfl
+    | cons r rest ih =>
+      by_cases h : r.ends = true
+      · rw [copyLoop_cons_ends _ _ _ h]
+        simp [handedOver, calls, h, LoopOrder.writes]
+      · cases r with
+        | data bs =>
+          rw [copyLoop_cons_data]
+          simp only [handedOver, calls, ReadRes.ends, Bool.false_eq_true, ↓reduceIte, List.flatMap_cons,
+            ReadRes.bytes]
+          rw [ih]; rfl
+        | dataEof bs => simp [ReadRes.ends] at h
+        | eof => simp [ReadRes.ends] at h
+        | dataErr bs => simp [ReadRes.ends] at h
+  · induction rs with
+    | nil => simp [copyLoop_nil]
+    | cons r rest ih =>
+      by_cases h : r.ends = true
+      · rw [copyLoop_cons_ends _ _ _ h]
+        simp only [true_iff]
+        exact ⟨r, List.mem_cons_self, h⟩
+      · cases r with
+        | data bs =>
+          rw [copyLoop_cons_data]
+          simp only [List.mem_cons, exists_eq_or_imp, ReadRes.ends, Bool.false_eq_true, false_or]
+          exact ih
+        | dataEof bs => simp [ReadRes.ends] at h
+        | eof => simp [ReadRes.ends] at h
+        | dataErr bs => simp [ReadRes.ends] at h
+  · intro pre bs
+    induction pre with
+    | nil => simp [copyLoop, copyLoopFrom, ReadRes.ends, LoopOrder.writes, ReadRes.bytes, ReadRes.clean]
+    | cons p rest ih =>
+      simp only [List.map_cons, List.cons_append, List.flatten_cons]
+      rw [copyLoop_cons_data, ih]
+      simp [List.append_assoc]
+
+example : (copyLoop .bytesFirst exReads).written = [1, 2, 3, 4, 5] ∧ (copyLoop .bytesFirst exReads).clean = true ∧
+    handedOver exReads = [1, 2, 3, 4, 5] := by decide
+
+/-- THE ENCODING OF THE END IS IRRELEVANT FOR THE DESTINATION: whether a source returns its last bytes together
+    with `io.EOF` or in a call of their own followed by `(0, io.EOF)` — in either direction of rewriting, at
+    every place of the sequence —, the loop writes the same bytes, returns at the same point and in the same way;
+    and the copier takes the same steps of the tunnel machine (`copy d n … eof d`), so that every theorem of
+    sections A–M covers both encodings -/
+theorem c03_eof_encoding_irrelevant (rs : List ReadRes) :
+    copyLoop .bytesFirst (splitEnds rs) = copyLoop .bytesFirst rs ∧
+    copyLoop .bytesFirst (joinEnds rs) = copyLoop .bytesFirst rs ∧
+    (∀ d, toSteps d (splitEnds rs) = toSteps d rs) := by
+  refine ⟨?_, ?_, ?_⟩
+  · induction rs with
+    | nil => rfl
+    | cons r rest ih =>
+      cases r with
+      | data bs => simp only [splitEnds, copyLoop_cons_data, ih]
+      | dataEof bs =>
+        simp only [splitEnds]
+        rw [copyLoop_cons_data, copyLoop_cons_ends _ .eof _ rfl, copyLoop_cons_ends _ (.dataEof bs) _ rfl]
+        simp [LoopOrder.writes, ReadRes.bytes, ReadRes.clean]
+      | eof => simp only [splitEnds]; rw [copyLoop_cons_ends _ _ _ rfl, copyLoop_cons_ends _ _ _ rfl]
+      | dataErr bs => simp only [splitEnds]; rw [copyLoop_cons_ends _ _ _ rfl, copyLoop_cons_ends _ _ _ rfl]
+  · induction rs using joinEnds.induct with
+    | case1 bs rest ih =>
+      simp only [joinEnds]
+      rw [copyLoop_cons_data, copyLoop_cons_ends _ .eof _ rfl, copyLoop_cons_ends _ (.dataEof bs) _ rfl]
+      simp [LoopOrder.writes, ReadRes.bytes, ReadRes.clean]
+    | case2 r rest hne ih =>
+      rw [joinEnds]
+      · cases r with
+        | data bs => simp only [copyLoop_cons_data, ih]
+        | dataEof bs => rw [copyLoop_cons_ends _ _ _ rfl, copyLoop_cons_ends _ _ _ rfl]
+        | eof => rw [copyLoop_cons_ends _ _ _ rfl, copyLoop_cons_ends _ _ _ rfl]
+        | dataErr bs => rw [copyLoop_cons_ends _ _ _ rfl, copyLoop_cons_ends _ _ _ rfl]
+      · exact hne
+    | case3 => rfl
+  · intro d
+    induction rs with
+    | nil => rfl
+    | cons r rest ih =>
+      cases r <;> simp [splitEnds, toSteps, ih]
+
+example : splitEnds exReads = [.data [1, 2, 3], .data [4, 5], .eof] ∧ joinEnds (splitEnds exReads) = exReads ∧
+    toSteps .up exReads = [.copy .up 3, .copy .up 2, .eof .up] := by decide
+
+/-- THE FAST PATHS COPY LIKE THE GENERIC LOOP: whichever leg's `WriteTo` / `ReadFrom` `io.CopyBuffer` delegates
+    to, as long as that loop honours the reader's contract the tunnel's output is what the generic loop writes —
+    every byte handed over, for every sequence of read results -/
+theorem c03_fast_paths_copy_like_generic_loop (fp : FastPaths) (rs : List ReadRes)
+    (hw : ∀ o, fp.srcWriteTo = some o → o = .bytesFirst) (hr : ∀ o, fp.dstReadFrom = some o → o = .bytesFirst) :
+    copyBuffer fp rs = copyLoop .bytesFirst rs ∧ (copyBuffer fp rs).written = handedOver rs := by
+  have h : copyBuffer fp rs = copyLoop .bytesFirst rs := by
+    unfold copyBuffer
+    cases hsw : fp.srcWriteTo with
+    | some o => simp [hw o hsw]
+    | none =>
+      cases hdr : fp.dstReadFrom with
+      | some o => simp [hr o hdr]
+      | none => rfl
+  exact ⟨h, by rw [h]; exact (c03_copy_delivers_bytes_returned_with_eof rs).1⟩
+
+example : copyBuffer { dstReadFrom := some .bytesFirst } exReads = copyLoop .bytesFirst exReads := by decide
+
+/-- WHAT THE LOOP THAT LOOKS AT THE ERROR FIRST LOSES, for every sequence of read results: exactly the bytes of
+    the call that ended the stream — nothing else, and nothing at all when the end comes in a call of its own
+    (which is why it passes every test whose source is a TCP connection) -/
+theorem c03_copy_error_first_loses_last_block (rs : List ReadRes) :
+    (copyLoop .bytesFirst rs).written = (copyLoop .errorFirst rs).written ++ lastBlock rs ∧
+    (copyLoop .errorFirst rs).returned = (copyLoop .bytesFirst rs).returned ∧
+    (copyLoop .errorFirst rs).clean = (copyLoop .bytesFirst rs).clean ∧
+    (copyLoop .errorFirst (splitEnds rs)).written = (copyLoop .errorFirst rs).written ++
+      (match rs.find? ReadRes.ends with | some (.dataEof bs) => bs | _ => []) := by
+  induction rs with
+  | nil => exact ⟨rfl, rfl, rfl, rfl⟩
+  | cons r rest ih =>
+    cases r with
+    | data bs =>
+      simp only [copyLoop_cons_data, splitEnds, lastBlock, ReadRes.ends, Bool.false_eq_true, ↓reduceIte,
+        List.find?_cons]
+      obtain ⟨h1, h2, h3, h4⟩ := ih
+      exact ⟨by rw [h1, List.append_assoc], h2, h3, by rw [h4, List.append_assoc]⟩
+    | dataEof bs =>
+      simp only [splitEnds, copyLoop_cons_data]
+      rw [copyLoop_cons_ends .bytesFirst (.dataEof bs) rest rfl, copyLoop_cons_ends .errorFirst (.dataEof bs) rest rfl,
+        copyLoop_cons_ends .errorFirst .eof (splitEnds rest) rfl]
+      simp [LoopOrder.writes, ReadRes.ends, ReadRes.bytes, lastBlock, List.find?_cons]
+    | eof =>
+      simp only [splitEnds]
+      rw [copyLoop_cons_ends .bytesFirst .eof rest rfl, copyLoop_cons_ends .errorFirst .eof rest rfl,
+        copyLoop_cons_ends .errorFirst .eof (splitEnds rest) rfl]
+      simp [LoopOrder.writes, ReadRes.ends, ReadRes.bytes, lastBlock, List.find?_cons]
+    | dataErr bs =>
+      simp only [splitEnds]
+      rw [copyLoop_cons_ends .bytesFirst (.dataErr bs) rest rfl, copyLoop_cons_ends .errorFirst (.dataErr bs) rest rfl,
+        copyLoop_cons_ends .errorFirst (.dataErr bs) (splitEnds rest) rfl]
+      simp [LoopOrder.writes, ReadRes.ends, ReadRes.bytes, lastBlock, List.find?_cons]
+
+/-- WHY THE ORDER MATTERS (the seeded variant of `conntrack`'s `ReadFrom`, kernel-checked): the destination leg
+    has a `ReadFrom` that looks at the error first; the source returns its last two bytes together with `io.EOF`.
+    The loop returns cleanly — `closeWriter` shows the destination end-of-stream — after 3 of the 5 bytes; the
+    code's loops deliver all 5; and on the other encoding of the same stream the variant delivers all 5 too -/
+theorem c03_copy_error_first_witness :
+    copyBuffer { dstReadFrom := some .errorFirst } exReads = { written := [1, 2, 3], returned := true, clean := true } ∧
+    handedOver exReads = [1, 2, 3, 4, 5] ∧
+    copyBuffer { dstReadFrom := some .bytesFirst } exReads = { written := [1, 2, 3, 4, 5], returned := true, clean := true } ∧
+    copyBuffer {} exReads = { written := [1, 2, 3, 4, 5], returned := true, clean := true } ∧
+    copyBuffer { dstReadFrom := some .errorFirst } (splitEnds exReads) =
+      { written := [1, 2, 3, 4, 5], returned := true, clean := true } := by decide
 
 end C03
 end FwdVerif
